@@ -58,6 +58,10 @@ impl Kind {
 #[derive(Debug, Clone, Serialize, Deserialize)]
 pub struct Case {
     pub policies: Vec<Kind>,
+    /// every managed policy is already installed (as an earlier run left it) when the run starts:
+    /// an expression that has *become* unevaluable
+    #[serde(default)]
+    pub installed_before: bool,
 }
 
 /// build running config + IRR db; returns also the harness-side expression of each policy
@@ -197,15 +201,19 @@ impl Prop for C15 {
             for pos in 0..3 {
                 let mut v = vec![Kind::Good(0b101, 0b11), Kind::Good(0b10, 0)];
                 v.insert(pos, b.clone());
-                out.push(Case { policies: v });
+                out.push(Case { policies: v.clone(), installed_before: false });
+                out.push(Case { policies: v, installed_before: true });
             }
         }
         out
     }
     fn strategy(&self, _tier: Tier) -> BoxedStrategy<Case> {
-        prop::collection::vec(kind_strategy(), 2..7)
-            .prop_filter("at least one unevaluable", |v| v.iter().any(|k| !k.evaluable()))
-            .prop_map(|policies| Case { policies })
+        (
+            prop::collection::vec(kind_strategy(), 2..7)
+                .prop_filter("at least one unevaluable", |v| v.iter().any(|k| !k.evaluable())),
+            any::<bool>(),
+        )
+            .prop_map(|(policies, installed_before)| Case { policies, installed_before })
             .boxed()
     }
     fn check(&self, case: &Case) -> Obs {
@@ -220,6 +228,24 @@ impl Prop for C15 {
         };
         let fake = Arc::new(Mutex::new(FakeJunos::new("bgpfu")));
         fake.lock().unwrap().running = stmts.clone();
+        if case.installed_before {
+            obs.class("policies-installed-before-the-run");
+            let mut cfg = Config::default();
+            for i in 0..case.policies.len() {
+                cfg.policies.push(crate::junos_model::Policy {
+                    name: format!("fltr-p{i}"),
+                    comment: Some("Last updated at 2024-01-01 00:00:00Z from mp-filter expression AS-BEFORE".into()),
+                    terms: vec![crate::junos_model::Term {
+                        name: "inet".into(),
+                        family: Some("inet".into()),
+                        filters: [("10.0.0.0/8".to_string(), "/8-/24".to_string())].into_iter().collect(),
+                        action: Some("accept".into()),
+                    }],
+                    default_action: Some("reject".into()),
+                });
+            }
+            fake.lock().unwrap().ephemeral = cfg;
+        }
         let result = crate::fullrun::agent_run(self.0, &fake, ("127.0.0.1", irrd.port), "bgpfu");
         let (after, commits, proto) = {
             let f = fake.lock().unwrap();
